@@ -890,6 +890,9 @@ class SymReal:
         raise Unsupported('float() of a symbolic real')
 
     def __int__(self):
+        e = z3.simplify(self.e)
+        if z3.is_rational_value(e):        # a constant in symbolic clothing (x - x + 2): int() truncates towards zero, as for float
+            return int(_as_py(e))
         raise Unsupported('int() of a symbolic real')
 
     def __complex__(self):
